@@ -4,6 +4,7 @@ from typing import Awaitable, Callable, Dict, List, Optional, Tuple, Type, Union
 
 import h2
 import h2.connection
+import h2.errors
 import h2.events
 import h2.exceptions
 import priority
@@ -233,7 +234,18 @@ class H2Protocol:
                 self.connection.send_headers(event.stream_id, event.headers)
                 await self._flush()
             elif isinstance(event, StreamClosed):
+                stream = self.streams.get(event.stream_id)
                 await self._close_stream(event.stream_id)
+                buffer = self.stream_buffers.get(event.stream_id)
+                if isinstance(stream, HTTPStream) and buffer is not None and not buffer._complete:
+                    # The app has finished without completing the
+                    # response, the client must not mistake what it
+                    # has for a complete response nor wait for more.
+                    await buffer.close()
+                    self.connection.reset_stream(
+                        event.stream_id, error_code=h2.errors.ErrorCodes.INTERNAL_ERROR
+                    )
+                    await self._flush()
                 idle = len(self.streams) == 0 or all(
                     stream.idle for stream in self.streams.values()
                 )
